@@ -21,8 +21,10 @@ DiskOf(r) == [f \in {r.disk[i].f : i \in 1..Len(r.disk)} |-> r.disk[CHOOSE i \in
 LtOf(r, t) == r.texts[CHOOSE i \in 1..Len(r.texts) : r.texts[i].t = t].lt
 ImpOf(r, t) == Range(r.texts[CHOOSE i \in 1..Len(r.texts) : r.texts[i].t = t].imp)
 EntryOfText(r, t) == r.texts[CHOOSE i \in 1..Len(r.texts) : r.texts[i].t = t].entry
-(* files of the analysed parse tree (one import level); none when no analysis exists *)
-InTree(r, s, f) == s.has /\ s.main \in DOMAIN s.an /\ (f = s.main \/ f \in ImpOf(r, s.an[s.main]))
+(* files of the analysed parse tree; none when no analysis exists *)
+RECURSIVE Reach(_, _, _)
+Reach(r, an, S) == LET N == S \cup UNION {ImpOf(r, an[g]) : g \in S \cap DOMAIN an} IN IF N = S THEN S ELSE Reach(r, an, N)
+InTree(r, s, f) == s.has /\ s.main \in DOMAIN s.an /\ f \in Reach(r, s.an, {s.main})        \* imports followed transitively
 OkNow(r, disk, b) == Resolvable(disk, b, r.cfg, LAMBDA t : EntryOfText(r, t))
 MainNow(r, disk, b) == EntryFile(disk, b, r.cfg, LAMBDA t : EntryOfText(r, t))
 (* The reading the fold uses: the deviations that are still open (one record [dev] per line in the file IOEnv.DEVS).  *)
